@@ -549,7 +549,7 @@ type c02Runs struct {
 func (r *c02Runs) report(v *verifRun, parent string, x *c02Node, problem func(*c02Node, bool) string) {
 	mins := c02Minimal(x, func(y *c02Node) bool {
 		// verdicts on small parts recur throughout the exhaustive part: remember them
-		if parent != r.memoParent || y == x || len(c02Leaves(y, nil)) > 3 {
+		if parent != r.memoParent || y == x || len(c02Leaves(y, nil)) > 2 {
 			return problem(y, false) != ""
 		}
 		k := v.Clause[len(v.Clause)-4:] + c02Print(y)
